@@ -56,6 +56,8 @@ pub enum Op {
     Successor,
     HexRoundTrip,
     ConvRoundTrip,
+    /// Lut -> Lut{n2}::try_from (any n2; Err expected unless n2 is the table's size); LutN -> Lut
+    ConvertTo(usize),
     CofactorRoundTrip(usize),
     DoubleFlip(usize),
     XorTwice,
@@ -303,6 +305,10 @@ fn exec_inner(fam: Fam, n: usize, slots: &[T], st: &Step) -> (Outcome, Option<T>
             },
             Err(()) => (Outcome::ParseErr, None),
         },
+        Op::ConvertTo(n2) => match a.convert(*n2) {
+            Ok(t) => tab(t),
+            Err(()) => (Outcome::ParseErr, None),
+        },
         Op::CofactorRoundTrip(i) => {
             let (c0, c1) = a.cofactors(*i);
             tab(c0.from_cofactors(c1.as_ref(), *i))
@@ -449,6 +455,7 @@ pub fn arb_op(n: usize, fam: Fam, o: OpOptions) -> BoxedStrategy<Op> {
         (2, (0..size, any::<bool>()).prop_map(|(m, b)| Op::SetValue(m, b)).boxed()),
         (2, Just(Op::HexRoundTrip).boxed()),
         (2, Just(Op::ConvRoundTrip).boxed()),
+        (2, (0usize..=12).prop_map(Op::ConvertTo).boxed()),
         (1, Just(Op::XorTwice).boxed()),
         (9, (prop_oneof![Just(BinOp::And), Just(BinOp::Or), Just(BinOp::Xor)], 0usize..8).prop_map(|(op, f)| Op::Bin(op, f)).boxed()),
         (1, (0..size).prop_map(Op::Value).boxed()),
